@@ -73,12 +73,19 @@ def fmtOpt : Option Val → String
 
 def fmtCore (e : Entry) : String := s!"{e.loc.x},{e.loc.y},{e.s},{e.c},{e.marker},{e.zorder}"
 
+/-- a slot of an optional array: the value, `None` for an agent whose portrayal does not specify the key -/
+def fmtSlot : Option Val → String
+  | none => "None"
+  | some v => v
+
+def fmtArray (vs : List (Option Val)) : String := orDash ("+".intercalate (vs.map fmtSlot))
+
 def fmtCollect (es : List Entry) : String :=
   let head := s!"ok n={es.length}"
   let body := es.foldl (fun acc e => acc ++ " | " ++ fmtCore e) head
   let ign := (es.filter (fun e => !e.ignored.isEmpty)).map fun e => "+".intercalate e.ignored
-  body ++ s!" # alpha={orDash ("+".intercalate (alphas es))} edgecolors={orDash ("+".intercalate (edgecolorss es))}"
-       ++ s!" linewidths={orDash ("+".intercalate (linewidthss es))} ign={orDash ("/".intercalate ign)}"
+  body ++ s!" # alpha={fmtArray (alphas es)} edgecolors={fmtArray (edgecolorss es)}"
+       ++ s!" linewidths={fmtArray (linewidthss es)} ign={orDash ("/".intercalate ign)}"
 
 def fmtMarker (e : Entry) : String :=
   s!"{e.loc.x},{e.loc.y},{e.s},{e.c},{fmtOpt e.alpha},{fmtOpt e.edgecolors},{fmtOpt e.linewidths}"
@@ -86,14 +93,14 @@ def fmtMarker (e : Entry) : String :=
 def groupLe (a b : Group) : Bool :=
   if a.marker = b.marker then decide ((a.zorder.toInt?.getD 0) ≤ (b.zorder.toInt?.getD 0)) else strLe a.marker b.marker
 
+/-- the markers of a scatter call as they end up on the Axes (`Group.drawn`: the keyword arrays applied) -/
 def fmtGroup (g : Group) : String :=
-  g.members.foldl (fun acc e => acc ++ " " ++ fmtMarker e) s!"{g.marker} {g.zorder} n={g.members.length}"
+  g.drawn.foldl (fun acc e => acc ++ " " ++ fmtMarker e) s!"{g.marker} {g.zorder} n={g.drawn.length}"
 
 def fmtDraw (gs : List Group) : String :=
   (gs.mergeSort groupLe).foldl (fun acc g => acc ++ " | " ++ fmtGroup g) "ok"
 
 def fmtErr : Err → String
-  | .index => "err Index"
   | .attribute => "err Attribute"
   | .notImplemented => "err NotImplemented"
 
